@@ -36,8 +36,10 @@ class Package:
 class XGen:
     def __init__(self, rng, hostile=0.25, anomalies=0.0, optional_absent=0.0, dangling=0.0, fields=True, tables=True,
                  images=True, notes=True, comments=True, textboxes=True, deleted=True, numbering=True, malformed=0.0,
-                 max_depth=3, alt_no_fallback=0.0, switches=0.5, linked_rate=0.15):
+                 max_depth=3, alt_no_fallback=0.0, switches=0.5, linked_rate=0.15, odd_links=None):
         self.rng = rng
+        # linked targets whose content type cannot be determined (an anomaly: they produce a warning); by default as often as other anomalies
+        self.odd_links = anomalies if odd_links is None else odd_links
         self.hostile, self.anomalies, self.optional_absent, self.dangling = hostile, anomalies, optional_absent, dangling
         self.fields, self.tables, self.images, self.notes_on, self.comments_on = fields, tables, images, notes, comments
         self.textboxes, self.deleted, self.numbering_on, self.malformed = textboxes, deleted, numbering, malformed
@@ -161,7 +163,7 @@ class XGen:
             data = bytes(r.randrange(256) for _ in range(r.choice([0, 1, 3, 8, 20])))
             if r.random() < self.linked_rate:
                 # linked targets also without an extension / with one no table knows: their content type cannot be determined
-                lext = r.choice([".png", ".png", ".img", ""])
+                lext = r.choice([".img", ""]) if self.maybe(self.odd_links) else ".png"
                 tgt = ("http://example.invalid/linked%d%s" if self.maybe(0.5) else "linked%d%s") % (len(self.pkg.linked), lext)
                 self.pkg.linked[tgt] = ("data", data) if self.maybe(0.6) else ("error", None)
                 rid = self.add_rel(tgt, "http://schemas.openxmlformats.org/officeDocument/2006/relationships/image")
@@ -370,12 +372,21 @@ class XGen:
                 out.append(X("w:sdt", {}, [X("w:sdtContent", {}, [self.paragraph(depth)])] if self.maybe(0.85) else [X("w:sdtPr")]))
             else:
                 out.append(self.paragraph(depth))
-        # a deleted paragraph must be followed by a paragraph in the same container
-        last_deleted = max([k for k, x in enumerate(out) if self._is_deleted(x)] or [-1])
-        last_plain = max([k for k, x in enumerate(out) if isinstance(x, XmlElement) and x.name == "w:p" and not self._is_deleted(x)] or [-1])
-        if last_deleted > last_plain:
-            out.append(self.paragraph(depth))
-        return out
+        # the property's domain: a paragraph whose mark is deleted is FOLLOWED BY a paragraph in the same container (its content
+        # merges into that paragraph); if a table or anything else followed, the content would flow into whatever paragraph is
+        # read next — possibly one in a merged-away cell
+        fixed = []
+        for k, x in enumerate(out):
+            fixed.append(x)
+            if self._is_deleted(x):
+                nxt = out[k + 1] if k + 1 < len(out) else None
+                if not (isinstance(nxt, XmlElement) and nxt.name == "w:p"):
+                    saved, self.deleted = self.deleted, False
+                    try:
+                        fixed.append(self.paragraph(depth))
+                    finally:
+                        self.deleted = saved
+        return fixed
 
     @staticmethod
     def _is_deleted(x):
